@@ -102,6 +102,20 @@ def site_reindex_fill(a, b, e):
     return list(a) + [e], r.values, False, [], []
 
 
+def site_frame_reindex_both_fill(a, b, e):
+    '''both axes reindexed, one column kept, one row label kept and new ones added: the new cells hold the fill value, the kept row its data'''
+    f = sf.Frame.from_items((('x', a), ('y', a)), index=_labels(len(a)))
+    r = f.reindex(index=[_labels(1)[0]] + _labels(len(a), 70), columns=('y', 'z'), fill_value=e)
+    return [a[0]] + [e] * len(a), r['y'].values, False, [], []
+
+
+def site_frame_reindex_disjoint_rows_fill(a, b, e):
+    '''both axes reindexed, a column kept, NO row label in common (same number of rows): every cell is the fill value'''
+    f = sf.Frame.from_items((('x', a), ('y', a)), index=_labels(len(a)))
+    r = f.reindex(index=_labels(len(a), 70), columns=('y', 'z'), fill_value=e)
+    return [e] * len(a), r['y'].values, False, [], []
+
+
 def site_shift_fill(a, b, e):
     r = sf.Series(a, index=_labels(len(a))).shift(1, fill_value=e)
     return [e] + list(a[:-1]), r.values, False, [], []
@@ -259,7 +273,7 @@ def main(ctx):
         ctx.exhaustive = True
     # ---- V: merge sites
     events = []
-    ELEM_SITES = ('reindex_fill', 'shift_fill', 'assign_elem', 'frame_assign_elem', 'frame_concat_cols_fill', 'from_records',
+    ELEM_SITES = ('reindex_fill', 'frame_reindex_both_fill', 'frame_reindex_disjoint_rows_fill', 'shift_fill', 'assign_elem', 'frame_assign_elem', 'frame_concat_cols_fill', 'from_records',
                   'series_from_list', 'series_from_list_rev', 'index_go_append', 'fillna')
 
     def emit(name, da, db, e):
